@@ -37,6 +37,14 @@ def grid(tier, rng):
             for r in sorted(x for x in rs if x >= 0):
                 for length in ([0, 1, U32] if q else lens):
                     execs.append(raw_exec(2, rng.choice(["enc", "dec"]), k, r, length, m, 0, 0))
+    # field size negotiated first through of_set_control_parameter(OF_RS_CTRL_SET_FIELD_SIZE), then parameters
+    # with the same or another m: the limits must follow the m of the parameters
+    for m1 in (4, 8):
+        for m2 in (4, 8, 5):
+            lim = (1 << m2) - 1 if m2 in (4, 8) else 15
+            for (k, r) in {(1, 1), (lim - 1, 1), (lim, 1), (lim + 1, 1), (10, 5), (20, 5), (15, 1), (16, 1), (200, 55), (1, lim - 1), (1, lim)}:
+                execs.append(["create 0 2 %s" % rng.choice(["enc", "dec"]), "setctrl 0 1024 %d 2" % m1,
+                              "rawparams 0 %d %d 4 %d 0 0" % (k, r, m2), "release 0"])
     # LDPC-Staircase (advertised maxima are read from the session; 50000 in this build)
     mk = 50000
     seeds = [-2 ** 31, -1, 0, 1, 2 ** 31 - 2, 2 ** 31 - 1]
@@ -70,6 +78,9 @@ def cycles(tier, rng):
         pts += [P(3, 49997, 3, N1=3, seed=1, length=1, payload="rnd"), P(3, 25000, 25000, N1=3, seed=77, length=1, payload="rnd"),
                 P(3, 1, 49999, N1=3, seed=5, length=1, payload="rnd")]
     execs = []
+    for (m1, p) in ((8, P(2, 10, 5, m=4, length=5)), (4, P(2, 20, 5, m=8, length=20)), (4, P(2, 10, 5, m=4, length=5)), (8, P(2, 20, 5, m=8, length=20))):
+        for base in (gen.encode_exec(p), gen.decode_exec(p, rng.sample(range(p.n), p.k), finish=True, probe="end")):
+            execs.append(base[:1] + ["setctrl 0 1024 %d 2" % m1] + base[1:])
     for p in pts:
         execs.append(gen.encode_exec(p))
         sub = rng.sample(range(p.n), min(p.n, p.k + (2 if p.codec == 3 else 0)))
